@@ -73,6 +73,7 @@ func graveyardWorker(db *DB, ctx context.Context, gcRateLimitInterval time.Durat
 			cleaningTimes[tableName] = time.Since(start)
 		}
 
+		verifHook("gc-scanned")
 		if len(toBeDeleted) == 0 {
 			for tableName, stat := range cleaningTimes {
 				db.metrics.GraveyardCleaningDuration(
@@ -80,6 +81,7 @@ func graveyardWorker(db *DB, ctx context.Context, gcRateLimitInterval time.Durat
 					stat,
 				)
 			}
+			verifHook("gc-nothing")
 			continue
 		}
 
@@ -102,6 +104,7 @@ func graveyardWorker(db *DB, ctx context.Context, gcRateLimitInterval time.Durat
 			cleaningTimes[tableName] = time.Since(start)
 		}
 		wtxn.Commit()
+		verifHook("gc-committed")
 
 		for tableName, stat := range cleaningTimes {
 			db.metrics.GraveyardCleaningDuration(
